@@ -251,6 +251,14 @@ c14("c14_lru_h2_5", "Lru", "capacity 4, ratio 0.5", 5)
 c14("c14_sieve_3", "Sieve", "capacity 4", 3, quick=True)
 c14("c14_sieve_4", "Sieve", "capacity 4", 4)
 c14("c14_sieve_5", "Sieve", "capacity 4", 5)
+for nm, alg, what, q in (("c14_lru_script_release_full_pool", "Lru", "push0, acquire0, push1, release0, push2, pop (+drain): a held entry released into a pool that filled up meanwhile", True),
+                         ("c14_lru_script_hold_two", "Lru", "two entries held and released in the other order around an insert and a pop", False),
+                         ("c14_lru_script_remove_pinned", "Lru", "a pinned entry (acquired twice) is removed", False),
+                         ("c14_lru_script_pop_while_pinned", "Lru", "pop while the oldest entry is pinned, release, pop (pool weight 1)", False),
+                         ("c14_sieve_script_hand_wraps", "Sieve", "the hand skips two visited entries and wraps", True),
+                         ("c14_sieve_script_remove_hand", "Sieve", "the entry under the hand is removed", False)):
+    h("C14", "foyer-memory", EV, nm, f"{alg} scripted differential (literal operation sequence, symbolic weights 1..=2 and hints): " + what,
+      f"{alg}::{{new,push,pop,remove,acquire,release}} on real Arc<Record>s", "3 records; literal sequence of 6-9 operations followed by a full drain", quick=q, tq=900, tt=2400, unwind=6, stubs=MEMORY_STUBS)
 S3STUB = MEMORY_STUBS + ["std HashSet::{insert,remove} -> no-op and GhostQueue::contains -> linear scan of the ghost VecDeque (std's HashSet is SSE2 hashbrown inside the prebuilt std); "
                          "equivalent while no hash is ghosted twice (every record has a distinct hash)", "std::hash::RandomState::new -> fixed keys (never used)"]
 for nm, cfgt, nops, q in (("c14_s3fifo_g2_4", "capacity 4, small 0.25 (1), ghost 0.5 (2), threshold 1", 4, True), ("c14_s3fifo_g2_5", "capacity 4, small 0.25, ghost 0.5, threshold 1", 5, False),
